@@ -18,6 +18,8 @@ func (x *counters) Add(addr oid.Address, size uint64) {
 	x.mu.Lock()
 	defer x.mu.Unlock()
 
+	// the object may be already accounted (repeated put), replace its size
+	x.size -= x.objMap[addr]
 	x.size += size
 	x.objMap[addr] = size
 }
